@@ -89,7 +89,12 @@ func runC03Case(r *ev.Run, c c03Case) c03Dry {
 	}
 	// expected renderings, produced after the call with all producer faults disarmed
 	exp := make([][]byte, len(msgs))
+	unrenderable := map[int]bool{}
 	for i, m := range msgs {
+		if c.Specs[i].SMIME == "ed25519-unsupported" {
+			unrenderable[i] = true // signing always fails: there is no rendering of this message at all
+			continue
+		}
 		var b bytes.Buffer
 		if _, err := m.WriteTo(&b); err != nil {
 			r.HarnessError(fmt.Sprintf("C03: fault-free rendering of message %d failed after the call: %v", i, err))
@@ -127,13 +132,16 @@ func runC03Case(r *ev.Run, c c03Case) c03Dry {
 			r.Count("commits_accepted", 1)
 			which := -1
 			for i := range exp {
-				if bytes.Equal(cm.Data, exp[i]) {
+				if exp[i] != nil && bytes.Equal(cm.Data, exp[i]) {
 					which = i
 				}
 			}
 			if which < 0 {
 				kind := "mixture"
 				for i := range exp {
+					if exp[i] == nil {
+						continue
+					}
 					if bytes.HasPrefix(exp[i], bytes.TrimSuffix(cm.Data, []byte("\r\n"))) || bytes.HasPrefix(exp[i], cm.Data) {
 						kind = "prefix"
 					} else if len(cm.Data) > 0 && bytes.Contains(exp[i], bytes.TrimSuffix(cm.Data, []byte("\r\n"))) && kind != "prefix" {
@@ -145,6 +153,9 @@ func runC03Case(r *ev.Run, c c03Case) c03Dry {
 				}
 				viol("committed-incomplete:"+kind+":"+c.FailClass, fmt.Sprintf("the server accepted (2yz at end-of-data) %d bytes that are not the complete rendering of any message of the batch (%s of a message); fault class %s", len(cm.Data), kind, c.FailClass), map[string]any{"committed": ev.Q(cm.Data, 600), "transcript": s.Transcript()})
 				continue
+			}
+			if unrenderable[which] {
+				viol("committed-unrenderable", fmt.Sprintf("message %d cannot be rendered at all, yet something was committed for it", which), nil)
 			}
 			committed[which]++
 			// the envelope must be the message's own
@@ -194,6 +205,15 @@ func runC03Case(r *ev.Run, c c03Case) c03Dry {
 				if m.IsDelivered() {
 					viol("render-failure-delivered", fmt.Sprintf("message %d: its rendering failed but IsDelivered() is true", i), nil)
 				}
+			}
+		}
+		if unrenderable[i] {
+			r.Count("unrenderable_messages_sent", 1)
+			if !m.HasSendError() {
+				viol("render-failure-not-reported:before-first-byte", fmt.Sprintf("message %d: signing fails, so it cannot be rendered, but HasSendError() is false", i), nil)
+			}
+			if m.IsDelivered() {
+				viol("render-failure-delivered:before-first-byte", fmt.Sprintf("message %d cannot be rendered but IsDelivered() is true", i), nil)
 			}
 		}
 		if m.IsDelivered() {
@@ -274,13 +294,22 @@ func runC03(r *ev.Run, rep *ev.ReplayDoc) ev.Summary {
 				cases = append(cases, c)
 			}
 		}
+		// (iv) a message whose rendering fails before the first byte (S/MIME with a key type the signer
+		// does not support): nothing of it may be committed, the other messages of the batch are unaffected
+		for mi := range base.Specs {
+			c := mk()
+			c.Specs = append([]gen.MsgSpec{}, base.Specs...)
+			c.Specs[mi].SMIME = "ed25519-unsupported"
+			c.FailClass = "render-fails-before-first-byte"
+			cases = append(cases, c)
+		}
 		// (i) producer faults
 		for mi := range base.Specs {
 			for _, p := range producers(&base.Specs[mi]) {
 				for _, after := range []int{0, 5, -1} {
 					c := mk()
 					c.ProdFaults = make([]map[string]gen.Fault, len(base.Specs))
-					c.ProdFaults[mi] = map[string]gen.Fault{p: {After: after}}
+					c.ProdFaults[mi] = map[string]gen.Fault{p: {After: after, ErrKind: []string{"", "eof", "wrapped-eof", "unexpected-eof"}[(mi+after+len(p)+b)%4]}}
 					c.FailClass = fmt.Sprintf("producer-%s-after%d", strings.TrimRight(p, "0123456789"), after)
 					cases = append(cases, c)
 					// pair: producer fault x reply deviation at DATA-END / RSET / next MAIL
